@@ -1,17 +1,9 @@
 (* Proofs about the traced determinant / norm / circumsphere kernels of
    triangulation.py (gen/Prims.v). *)
 From Coq Require Import Reals Lra Psatz Bool.
-From AV Require Import Model.PrimsBase Proofs.PrimsLemmas.
+From AV Require Import Model.PrimsBase Model.PrimsSpec Proofs.PrimsLemmas.
 From AVGen Require Import Prims.
 Local Open Scope R_scope.
-
-(* ---- independent reference definitions (written from the property text) ---- *)
-Definition det2 (a b c d : R) : R := a * d - b * c.
-Definition det3 (a b c d e f g h i : R) : R :=
-  a * e * i + b * f * g + c * d * h - c * e * g - b * d * i - a * f * h.   (* Leibniz *)
-Definition sq (x : R) : R := x * x.
-Definition dist2_2 (ax ay bx b_y : R) : R := sq (ax - bx) + sq (ay - b_y).
-Definition dist2_3 (ax ay az bx b_y bz : R) : R := sq (ax - bx) + sq (ay - b_y) + sq (az - bz).
 
 Lemma fast_det2_leibniz : forall a b c d, fast_det2 a b c d = det2 a b c d.
 Proof. intros; unfold fast_det2, det2; ring. Qed.
@@ -90,7 +82,7 @@ Lemma circumsphere3_is_fast : forall ax ay az bx b_y bz cx cy cz dx dy dz,
   circumsphere3 ax ay az bx b_y bz cx cy cz dx dy dz = fast_3d_circumcircle ax ay az bx b_y bz cx cy cz dx dy dz.
 Proof. reflexivity. Qed.
 
-(* general (determinant) path: dimension 1 and dimension 4 *)
+(* general (determinant) path: dimension 1 (dimension 4 is in PrimsCircum4.v) *)
 Lemma circumsphere1_spec : forall a b, a <> b ->
   let '(o, r) := circumsphere1 a b in 0 <= r /\ sq (o - a) = r * r /\ sq (o - b) = r * r.
 Proof.
@@ -98,45 +90,6 @@ Proof.
   split; [apply sqrt_pos|].
   match goal with |- context [sqrt (?x * ?x)] => rewrite (sqrt_sqrt (x * x)) by (apply Rle_0_sqr) end.
   unfold sq; split; field; lra.
-Qed.
-
-Definition det4 (a11 a12 a13 a14 a21 a22 a23 a24 a31 a32 a33 a34 a41 a42 a43 a44 : R) : R :=
-    a11 * det3 a22 a23 a24 a32 a33 a34 a42 a43 a44
-  - a12 * det3 a21 a23 a24 a31 a33 a34 a41 a43 a44
-  + a13 * det3 a21 a22 a24 a31 a32 a34 a41 a42 a44
-  - a14 * det3 a21 a22 a23 a31 a32 a33 a41 a42 a43.
-
-Lemma circumsphere4_spec : forall a0 a1 a2 a3 b0 b1 b2 b3 c0 c1 c2 c3 d0 d1 d2 d3 e0 e1 e2 e3,
-  det4 (b0 - a0) (b1 - a1) (b2 - a2) (b3 - a3) (c0 - a0) (c1 - a1) (c2 - a2) (c3 - a3)
-       (d0 - a0) (d1 - a1) (d2 - a2) (d3 - a3) (e0 - a0) (e1 - a1) (e2 - a2) (e3 - a3) <> 0 ->
-  let '((o0, o1, o2, o3), r) := circumsphere4 a0 a1 a2 a3 b0 b1 b2 b3 c0 c1 c2 c3 d0 d1 d2 d3 e0 e1 e2 e3 in
-  0 <= r /\
-  sq (o0 - a0) + sq (o1 - a1) + sq (o2 - a2) + sq (o3 - a3) = r * r /\
-  sq (o0 - b0) + sq (o1 - b1) + sq (o2 - b2) + sq (o3 - b3) = r * r /\
-  sq (o0 - c0) + sq (o1 - c1) + sq (o2 - c2) + sq (o3 - c3) = r * r /\
-  sq (o0 - d0) + sq (o1 - d1) + sq (o2 - d2) + sq (o3 - d3) = r * r /\
-  sq (o0 - e0) + sq (o1 - e1) + sq (o2 - e2) + sq (o3 - e3) = r * r.
-Proof.
-  intros. unfold det4, det3 in H.
-  unfold circumsphere4; cbv zeta.
-  match goal with |- _ /\ sq (?x0 - _) + sq (?x1 - _) + sq (?x2 - _) + sq (?x3 - _) = _ /\ _ =>
-    set (o0 := x0); set (o1 := x1); set (o2 := x2); set (o3 := x3) end.
-  assert (Lb : 2 * (o0 * (b0 - a0) + o1 * (b1 - a1) + o2 * (b2 - a2) + o3 * (b3 - a3))
-               = (b0*b0+b1*b1+b2*b2+b3*b3) - (a0*a0+a1*a1+a2*a2+a3*a3)).
-  { subst o0 o1 o2 o3. field. lra. }
-  assert (Lc : 2 * (o0 * (c0 - a0) + o1 * (c1 - a1) + o2 * (c2 - a2) + o3 * (c3 - a3))
-               = (c0*c0+c1*c1+c2*c2+c3*c3) - (a0*a0+a1*a1+a2*a2+a3*a3)).
-  { subst o0 o1 o2 o3. field. lra. }
-  assert (Ld : 2 * (o0 * (d0 - a0) + o1 * (d1 - a1) + o2 * (d2 - a2) + o3 * (d3 - a3))
-               = (d0*d0+d1*d1+d2*d2+d3*d3) - (a0*a0+a1*a1+a2*a2+a3*a3)).
-  { subst o0 o1 o2 o3. field. lra. }
-  assert (Le : 2 * (o0 * (e0 - a0) + o1 * (e1 - a1) + o2 * (e2 - a2) + o3 * (e3 - a3))
-               = (e0*e0+e1*e1+e2*e2+e3*e3) - (a0*a0+a1*a1+a2*a2+a3*a3)).
-  { subst o0 o1 o2 o3. field. lra. }
-  clearbody o0 o1 o2 o3.
-  split; [apply sqrt_pos|].
-  rewrite sqrt_sqrt by apply sum_sq_nonneg4.
-  unfold sq. repeat split; lra.
 Qed.
 
 (* ---- point in simplex ---- *)
